@@ -19,6 +19,7 @@ def _apply(prop, k, domain, wildcard, ns_ip, out, procs=None, bind_port=None):
         out["sets"]["fragsizes"] = {str(x) for x in fs}
     for kk, vv in st.items():
         out["stats"][kk] = vv
+    out["stats"]["selects_reporting_several_inputs_at_once"] = k.multi_ready
     return v, st
 
 
